@@ -537,19 +537,34 @@ def segment_paths(ctx: Ctx):
         fr = prog.frame(q)
         where = prog.node_where(fr.module, prog.funcs[q].node)
         if kind == "closure":
-            cids = product_closures(prog, fr)
-            if len(cids) != 1:
-                ctx.undecided(key, f"{q}: expected one returned closure, found {len(cids)}", where)
-                continue
-            fr = prog.closure_frame(cids[0])
+            # what the factory returns: a nested function, or functools.partial(<that function or a module-level one>, ...)
+            r = fr.ret
+            while is_term(r) and r[0] == "call" and callee_name(r) == "functools.partial" and r[2]:
+                r = r[2][0]
+            tgt = prog.resolve_callable(r) if is_term(r) else None
+            if tgt is not None and tgt[0] == "func" and tgt[1] in prog.funcs:
+                fr = prog.frame(tgt[1])
+            elif tgt is not None and tgt[0] == "closure":
+                fr = prog.closure_frame(tgt[2])
+            else:
+                cids = product_closures(prog, fr)
+                if len(cids) != 1:
+                    ctx.undecided(key, f"{q}: the returned function was not identified ({len(cids)} nested functions)", where)
+                    continue
+                fr = prog.closure_frame(cids[0])
             q = fr.qualname
+            if pname not in fr.params:
+                ctx.undecided(key, f"{q}: no parameter {pname}", where)
+                continue
         if fr.ret is None or fr.unsupported:
             ctx.undecided(key, "return value not analysable", where)
             continue
         # a tuple result is judged component by component; a component that never depends on the segments is skipped
         comps = [fr.ret]
         if is_term(fr.ret) and fr.ret[0] == "tuple":
-            comps = [c for c in fr.ret[1] if any(reduces_by_segment(t_) for _p, t_ in arms(c, ()))]
+            # the policy calculator also returns results that have nothing to do with segments (the dense arg-max);
+            # every result of a reducer proper (segment_argmax: row ids and maxima) is a reduction over segments
+            comps = [c for c in fr.ret[1] if kind != "closure" or any(reduces_by_segment(t_) for _p, t_ in arms(c, ()))]
         bad, n_arms = None, 0
         for path, t in (a for c in comps for a in arms(c, ())):
             absent = False
